@@ -226,3 +226,39 @@ Definition convert_variable (s : cstate) (v : nat) (target : uvec) (d : directio
             end
       end
   end.
+
+(* ---- well-formedness checks used as premises of the C06 theorems and evaluated by the interpreter --------------- *)
+(* variable n does not occur (occurrences inside derivative atoms do not count: those read the derivative valuation) *)
+Fixpoint vfree (n : nat) (e : expr) : bool :=
+  let fix all (l : list expr) : bool := match l with [] => true | x :: r => vfree n x && all r end in
+  match e with
+  | EVar z => negb (Nat.eqb (Z.to_nat z) n)
+  | EAdd l | EMul l | EFn _ l | EBool _ l => all l
+  | EPow b x => vfree n b && vfree n x
+  | ERel _ a b => vfree n a && vfree n b
+  | EPw l => (fix allp (l : list (expr * expr)) : bool :=
+                match l with [] => true | (x, c) :: r => vfree n x && vfree n c && allp r end) l
+  | _ => true
+  end.
+
+(* the derivative atom d y / d t does not occur *)
+Fixpoint dfree (y t : nat) (e : expr) : bool :=
+  let fix all (l : list expr) : bool := match l with [] => true | x :: r => dfree y t x && all r end in
+  match e with
+  | EDeriv (EVar a) (EVar b) 1 => negb (Nat.eqb (Z.to_nat a) y && Nat.eqb (Z.to_nat b) t)
+  | EAdd l | EMul l | EFn _ l | EBool _ l => all l
+  | EPow b x => dfree y t b && dfree y t x
+  | ERel _ a b => dfree y t a && dfree y t b
+  | EPw l => (fix allp (l : list (expr * expr)) : bool :=
+                match l with [] => true | (x, c) :: r => dfree y t x && dfree y t c && allp r end) l
+  | _ => true
+  end.
+
+
+(* variable n is new for an equation list: it is no left-hand side and occurs on no right-hand side *)
+Definition fresh_var1 (n : nat) (q : ceq) : bool :=
+  (match q_lhs q with CLV v => negb (Nat.eqb v n) | CLD _ _ => true end) && vfree n (q_rhs q).
+Definition fresh_var (n : nat) (l : list ceq) : bool := forallb (fresh_var1 n) l.
+Definition fresh_atom1 (y t : nat) (q : ceq) : bool :=
+  (match q_lhs q with CLD a b => negb (Nat.eqb a y && Nat.eqb b t) | CLV _ => true end) && dfree y t (q_rhs q).
+Definition fresh_atom (y t : nat) (l : list ceq) : bool := forallb (fresh_atom1 y t) l.
